@@ -42,16 +42,18 @@ def process_level(res, tier):
                                 continue
                             # synchrotron frequency: close to what the default alpha0 implies, and far from it (main() then derives alpha0 from -f)
                             for fs in ((45000.0, 30000.0) if (sx, sy) == shifts[0] and si == 0 else (45000.0,)):
-                                cases.append((steps, n, sx, sy, si, q0, p0, rf, per, fs))
+                                cases.append((steps, n, sx, sy, si, q0, p0, rf, per, fs, 12))
+                            if per == "Ts" and si == 0:      # another phase-space size
+                                cases.append((steps, n, sx, sy, si, q0, p0, rf, per, 45000.0, 9))
 
     def do(c):
-        steps, n, sx, sy, si, q0, p0, rf, per, fs = c
+        steps, n, sx, sy, si, q0, p0, rf, per, fs, pq = c
         sc = 1.0 if rf == "linear" else 0.25
-        tag = "s%d_n%d_%g_%g_%d_%s_%s_%g" % (steps, n, sx, sy, si, rf, per, fs)
+        tag = "s%d_n%d_%g_%g_%d_%s_%s_%g_%g" % (steps, n, sx, sy, si, rf, per, fs, pq)
         start = os.path.join(wd, "start_%s.h5" % tag)
         pl.write_start_h5(start, n, gauss_start(n, sx, sy, q0 * sc, p0 * sc, 0.7))
         a = ["-s", n, "-T", 1, "-n", 1, "-G", 0, "-d", 0, "--FPType", 0, "--RenormalizeCharge", -1, "-i", start, "-f", fs,
-             "--PhaseSpaceShiftX", sx, "--PhaseSpaceShiftY", sy, "--InterpolationPoints", 4, "--LinearRF", "true" if rf == "linear" else "false", "--padding", 2]
+             "--PhaseSpaceShiftX", sx, "--PhaseSpaceShiftY", sy, "--InterpolationPoints", 4, "--LinearRF", "true" if rf == "linear" else "false", "--padding", 2, "--PhaseSpaceSize", pq]
         if per == "Ts":
             a += ["-N", steps]
         else:   # steps given per revolution: steps per synchrotron period = k*f_rev/fs ; -N deliberately set to something else
@@ -66,8 +68,8 @@ def process_level(res, tier):
         return c, r, doc
 
     for c, r, doc in pl.pmap(do, cases):
-        steps, n, sx, sy, si, q0, p0, rf, per, fs = c
-        case = "process steps=%d n=%d shift=%g,%g start=%d rf=%s stepsper=%s fs=%g" % (steps, n, sx, sy, si, rf, per, fs)
+        steps, n, sx, sy, si, q0, p0, rf, per, fs, pq = c
+        case = "process steps=%d n=%d shift=%g,%g start=%d rf=%s stepsper=%s fs=%g%s" % (steps, n, sx, sy, si, rf, per, fs, "" if pq == 12 else " phasespacesize=%g" % pq)
         rp = dict(cmd=r["cmd"], note="start file: Gaussian blob at (%g,%g)*%s, width 0.7, written by tools/h5json --write" % (q0, p0, "1" if rf == "linear" else "0.25"))
         if doc is None or "error" in doc:
             res.violate("C03/process/run-failed", case, "rc=%s %s" % (r["rc"], r["log"][-200:]), replay=rp)
@@ -76,7 +78,7 @@ def process_level(res, tier):
         p = doc["datasets"]["/EnergyAverage/data"]["data"]
         res.eval(case, pl.chash(case, q, p), trivial=False)
         a = 2 * math.pi / steps
-        dq = 12.0 / (n - 1)
+        dq = float(pq) / (n - 1)
         key = "C03/process/%s/%s/%s" % (rf, "StepsPerRevolution" if per == "rev" else "StepsPerTs", "shifted" if (sx or sy) else "centred")
         if len(q) < steps + 1:
             res.violate(key + "/records", case, "%d records for %d steps" % (len(q), steps), replay=rp)
